@@ -33,7 +33,7 @@ func (p SimulationPlan) Encode() ([]byte, error) {
 
 	encodable := encodedOutput{
 		SimulationPlan: p,
-		Events:         make([]interface{}, len(p.ConfigEvents)+len(p.GenerateUpkeeps)),
+		Events:         make([]interface{}, 0, len(p.ConfigEvents)+len(p.GenerateUpkeeps)+len(p.LogEvents)),
 	}
 
 	for _, event := range p.ConfigEvents {
